@@ -77,7 +77,16 @@ def gen_topology(rng, level):
         kind = "pulse"
         t = timing()
         lane_slots = 1
-        devices.append(_dev("bd_plunger", 1, "pulse", "bd_stage", "", **t))
+        stager2 = rng.random() < 0.5
+        if stager2:
+            # the trough confirms its ejects by a switch behind its exit and gives up early on a ball that does not show
+            # up; the launcher is a two-ball stager whose (slow) eject to the next device can outlast that
+            devices[0]["confirm_switch"] = True
+            devices[0]["eject_timeout_ms"] = min(devices[0]["eject_timeout_ms"], 3000)
+            devices[0]["missing_timeout_ms"] = devices[0]["eject_timeout_ms"]
+            t["et"] = max(t["et"], 6000)
+            t["mt"] = max(t["mt"], t["et"])
+        devices.append(_dev("bd_plunger", 2 if stager2 else 1, "pulse", "bd_stage", "", **t))
         t = timing()
         devices.append(_dev("bd_stage", rng.randint(1, 2), "pulse", "playfield", "", **t))
     elif kind != "direct":
@@ -194,8 +203,22 @@ def gen_ops(rng, topo, n_ops, rests):
                 ["wait", 25.0], ["ev", rng.choice(["ev_add_ball", "ev_req_stage", "ev_add_ball"]), 0.5],
                 ["wait", 45.0], ["rest"]]
 
+    plunger_dev = next((d for d in topo["devices"] if d["name"] == "bd_plunger"), None)
+
+    def skip_request():
+        """Mechanical plunger: a ball requested to stay in the lane goes straight on to the playfield (stray); while the
+        plunger still waits whether that ball skipped it, a ball is requested for the playfield."""
+        et_src = trough["eject_timeout_ms"] / 1000.0
+        et_pl = plunger_dev["eject_timeout_ms"] / 1000.0
+        return [["fault", "bd_trough", "stray"], ["ev", "ev_req_plunger", 0.5],
+                ["ev", "ev_add_ball", round(et_src + rng.uniform(0.2, 0.9 * et_pl), 2)], ["wait", 60.0], ["rest"],
+                ["ev", "ev_req_plunger", 0.5], ["wait", 45.0]]
+
+    can_skip_request = slow_lane and plunger_dev is not None and plunger_dev["target"] == "playfield"
     ops = [["wait", rng.choice([1.0, 3.0])]]
-    if any(d["name"] == "bd_stage" for d in topo["devices"]) and rng.random() < 0.4:
+    if can_skip_request and rng.random() < 0.3:
+        ops += skip_request()
+    elif any(d["name"] == "bd_stage" for d in topo["devices"]) and rng.random() < 0.4:
         ops += chain_lost()
     elif gottlieb and rng.random() < 0.6:
         ops += gt_fill()
@@ -206,7 +229,14 @@ def gen_ops(rng, topo, n_ops, rests):
         # get past it to the devices behind it
         ops.append(["ev", "ev_req_lock", 0.2])
     ops.append(["start"])
-    if any(d["name"] == "bd_stage" for d in topo["devices"]) and rng.random() < 0.7:
+    stager2 = plunger_dev is not None and plunger_dev["target"] == "bd_stage" and plunger_dev["slots"] == 2
+    if stager2 and rng.random() < 0.9:
+        # two-ball stager: the next ball is sent while the stager is still busy lifting the first one to the next device
+        ops.append(["ev", rng.choice(["ev_add_ball", "ev_req_stage"]), rng.choice([2.5, 3.0, 3.5, 4.0, 5.0])])
+        if rng.random() < 0.5:
+            ops.append(["ev", rng.choice(["ev_add_ball", "ev_req_stage"]), rng.choice([0.3, 1.0, 2.0])])
+        ops.append(["wait", 60.0])
+    elif any(d["name"] == "bd_stage" for d in topo["devices"]) and rng.random() < 0.7:
         # a second ball is requested while the ball of the game start is on its way through the chain
         ops.append(["ev", rng.choice(["ev_add_ball", "ev_req_stage"]),
                     rng.choice([0.5, 1.0, 1.5, 2.0, 3.0, 4.0, 6.0, 8.0])])
@@ -243,6 +273,8 @@ def gen_ops(rng, topo, n_ops, rests):
     lock_dev = next((d for d in topo["devices"] if d["name"] == "bd_lock"), None)
     if lock_dev and lock_dev.get("lanes", 1) > 1:
         bursts += ["twin_lock", "twin_lock"]    # two balls enter the lock (by whatever lanes) close together
+    if can_skip_request:
+        bursts += ["skip_request"]
     if "bd_stage" in names:
         bursts += ["chain_lost"]
         bursts += ["chain_double", "chain_double"]   # a further request while the launcher's ball is in flight
@@ -280,6 +312,8 @@ def gen_ops(rng, topo, n_ops, rests):
                 ops.append(["wait", 12.0])
             elif b == "chain_lost":
                 ops += chain_lost()
+            elif b == "skip_request":
+                ops += skip_request()
             elif b == "chain_double":
                 ops.append(["ev", rng.choice(["ev_add_ball", "ev_req_stage"]), rng.choice(DTS)])
                 for _ in range(rng.randint(1, 2)):
@@ -345,7 +379,8 @@ def gen_phys(rng, topo, fault_level):
     for d in topo["devices"]:
         if d["name"] == "bd_plunger" and d["target"] == "bd_stage" and rng.random() < (0.8 if fault_level else 0.5):
             # three-device chain: the launcher's kicks towards the staging device are weak (ball falls back) or slow
-            phys["faults"][d["name"]] = [rng.choice(["back_late", "back_early", "back_late", "late"])] + \
+            first = ["late", "late", "back_late"] if d["slots"] == 2 else ["back_late", "back_early", "back_late", "late"]
+            phys["faults"][d["name"]] = [rng.choice(first)] + \
                 [rng.choice(["back_early", "back_late", "late", "ok", "ok"]) for _ in range(rng.randint(1, 5))]
     if fault_level > 0:
         for d in topo["devices"]:
@@ -663,6 +698,9 @@ class Monitors:
                 last[dev] = max(last.get(dev, 0), t)
             unnoticed += sum(1 for (t, dev) in self.world.service_log[-12:]
                              if now - last[dev] <= self.world.devs[dev].exit_delay + 6.5)
+            # ... and a ball that passed its source's confirm switch (source idle again) but is still expected at a
+            # target may have strayed onto the playfield and be captured before the target gives it up
+            unnoticed += sum(d.incoming_balls_handler.get_num_incoming_balls() for d in self.devices.values())
             if pf < -(busy + unnoticed):
                 self.violation("C04", "range", "playfield_count_negative",
                                {"playfield_balls": pf, "devices_not_idle": busy, "unnoticed_plunges": unnoticed,
@@ -1046,6 +1084,12 @@ def evaluate_rest(mon, world, rested, horizon, trace):
         # MPF confirmed the eject because some ball did arrive at the target in the meantime (coincidence with another
         # ball): on the evidence it has that is a success, and the target did get a ball
         if _confirmed_by_coincidence(mon, world, t, dev):
+            reported = True
+        # with a confirm switch the source is done once the ball passed the switch; a ball that then never arrives is
+        # reported by the target (balldevice_<target>_ball_missing)
+        tgt_name = world.devs[dev].target
+        if world.devs[dev].confirm_switch and tgt_name in mon.dev_events and \
+                any(et >= t and kind == "missing" for et, kind in mon.dev_events[tgt_name]):
             reported = True
         if not retried and not reported:
             mon.violation("C05", "retry_or_report", "failed_eject_neither_retried_nor_reported",
